@@ -22,7 +22,7 @@ Definition fast_tick (mx : Z) (m : list Z) (cnt : cmap) : option (list Z) * cmap
 
 Definition fast_step (c : cfg) (s : Z) (st : fstream) (o : op) : fstream * option (option (list Z)) :=
   match o with
-  | Bind k true => if k =? s then (mk_fs (Some None) (fs_cnt st), None) else (st, None)
+  | Bind k true => if k =? s then (mk_fs (Some None) [], None) else (st, None)
   | Bind _ false => (st, None)
   | Unbind k => if k =? s then (fs_init, None) else (st, None)
   | Arrive k seq true =>
